@@ -54,6 +54,22 @@ func (d fakeDialer) DialURL(u *transport.URL) (net.Conn, error) {
 	return nil, dialedErr{d.id}
 }
 
+// blockingDialer signals that it was entered and then waits to be released
+type blockingDialer struct{ entered, release chan struct{} }
+
+func (d blockingDialer) DialURL(u *transport.URL) (net.Conn, error) {
+	close(d.entered)
+	<-d.release
+	return nil, dialedErr{-1}
+}
+
+// relayDialer dials through another registered scheme
+type relayDialer struct{ inner string }
+
+func (d relayDialer) DialURL(u *transport.URL) (net.Conn, error) {
+	return transport.DialURL(&transport.URL{Scheme: d.inner})
+}
+
 type fakeCtxDialer struct{ id int }
 
 func (d fakeCtxDialer) DialURLContext(ctx context.Context, u *transport.URL) (net.Conn, error) {
@@ -352,6 +368,56 @@ func runC19(ctx *Ctx) error {
 	}
 	wg.Wait()
 	res.Count("concurrent-goroutines-16")
+
+	// a dial in flight must not hold the registry: while one dialer is still dialling, other
+	// goroutines register, unregister and dial other schemes (an unknown scheme is reported at
+	// once); and a dialer may itself dial through another scheme (a relay)
+	{
+		release := make(chan struct{})
+		entered := make(chan struct{})
+		transport.RegisterDialer("c19-slow", blockingDialer{entered, release})
+		transport.RegisterDialer("c19-inner", fakeDialer{777})
+		transport.RegisterDialer("c19-relay", relayDialer{"c19-inner"})
+		slowDone := make(chan struct{})
+		go func() { transport.DialURL(&transport.URL{Scheme: "c19-slow"}); close(slowDone) }()
+		select {
+		case <-entered:
+		case <-time.After(3 * time.Second):
+			res.Fail(Failure{Kind: "oracle", Site: "registry-during-dial", Case: "slow dialer", Detail: "the registered dialer was not called within 3 s"})
+		}
+		for _, step := range []struct {
+			what string
+			f    func() string
+			want string
+		}{
+			{"dial of an unregistered scheme", func() string { return c19Dial("c19-nobody") }, "none"},
+			{"register another scheme", func() string { transport.RegisterDialer("c19-other", fakeDialer{5}); return "done" }, "done"},
+			{"dial the other scheme", func() string { return c19Dial("c19-other") }, "some " + ti(5)},
+			{"unregister the other scheme", func() string { transport.UnregisterDialer("c19-other"); return "done" }, "done"},
+			{"dial through a relaying dialer", func() string { return c19Dial("c19-relay") }, "some " + ti(777)},
+		} {
+			ch := make(chan string, 1)
+			go func() { ch <- step.f() }()
+			select {
+			case got := <-ch:
+				if got != step.want {
+					res.Fail(Failure{Kind: "oracle", Site: "registry-during-dial", Case: step.what, Impl: got, Detail: "expected " + step.want})
+				}
+			case <-time.After(3 * time.Second):
+				res.Fail(Failure{Kind: "oracle", Site: "registry-during-dial", Case: step.what, Detail: "blocked for 3 s while an unrelated dial was in flight"})
+			}
+			res.Count("during-dial")
+			res.Eval("during-dial:"+step.what, true)
+		}
+		close(release)
+		select {
+		case <-slowDone:
+		case <-time.After(3 * time.Second):
+		}
+		for _, sc := range []string{"c19-slow", "c19-inner", "c19-relay", "c19-other"} {
+			transport.UnregisterDialer(sc)
+		}
+	}
 
 	out, err := ctx.Model.RunParallel(lines, 8)
 	if err != nil {
